@@ -252,6 +252,114 @@ fn check_extremes(n: usize) -> (u64, Vec<Found>) {
     (cases, out)
 }
 
+/// Intermediate-state sparsity. A radix-2 transform passes through the residues of the input modulo the factors
+/// X^m - zeta of X^n + 1 (B = n/m blocks of length m). Inputs are built by CRT so that each half of each block is
+/// either zero or dense: a shortcut that looks at the data (skip a zero block, reuse a scratch row, special-case a
+/// zero upper half) is exercised with every combination of neighbours. Level m close to n probes the first layers
+/// of the forward transform, small m the first layers of the inverse. Oracle: the defining sums over the slot
+/// roots read off ntt(X).
+fn sparsity_patterns(halves: usize) -> Vec<Vec<bool>> {
+    let mut out: Vec<Vec<bool>> = vec![];
+    if halves <= 8 {
+        for mask in 0..(1u32 << halves) {
+            out.push((0..halves).map(|h| (mask >> h) & 1 == 1).collect());
+        }
+        return out;
+    }
+    let sel: Vec<usize> = (0..halves).filter(|h| *h < 6 || *h + 4 >= halves || *h == halves / 2 || *h == halves / 2 + 1).collect();
+    for &i in &sel {
+        let mut p = vec![false; halves];
+        p[i] = true;
+        out.push(p.clone()); // one dense half
+        out.push(p.iter().map(|x| !x).collect()); // one zero half
+        for &j in &sel {
+            if j > i {
+                let mut p2 = vec![false; halves];
+                p2[i] = true;
+                p2[j] = true;
+                out.push(p2.clone());
+                out.push(p2.iter().map(|x| !x).collect());
+            }
+        }
+    }
+    out.push((0..halves).map(|h| h % 2 == 0).collect()); // every upper half zero
+    out.push((0..halves).map(|h| h % 2 == 1).collect()); // every lower half zero
+    out.push((0..halves).map(|h| h % 4 < 2).collect()); // odd blocks zero
+    out.push((0..halves).map(|h| h % 4 != 3).collect()); // upper half zero in odd blocks only
+    out.push((0..halves).map(|h| h % 4 != 1).collect()); // upper half zero in even blocks only
+    out.push((0..halves).map(|h| h % 4 == 0 || h % 4 == 3).collect());
+    out
+}
+
+fn check_sparsity(n: usize) -> (u64, Vec<Found>) {
+    let mut out: Vec<Found> = vec![];
+    if n < 8 {
+        return (0, out);
+    }
+    let slot_root: Vec<i64> = fh::felt_fft(&unit(n, 1, 1)).iter().map(|&x| x as i64).collect();
+    let inv = zq::inverse_table();
+    let psi = slot_root[0];
+    let pow: Vec<Vec<i64>> = slot_root.iter().map(|&w| { let mut v = vec![1i64; n]; for j in 1..n { v[j] = v[j - 1] * w % Q; } v }).collect();
+    let mut levels: Vec<usize> = vec![n / 2, n / 4, n / 8, 8, 16, 32];
+    levels.retain(|&m| m >= 2 && m < n);
+    levels.sort();
+    levels.dedup();
+    let mut jobs: Vec<(usize, Vec<bool>)> = vec![];
+    for &m in &levels {
+        for p in sparsity_patterns(2 * (n / m)) {
+            jobs.push((m, p));
+        }
+    }
+    let cases = jobs.len() as u64;
+    let res: Vec<Option<Found>> = jobs
+        .par_iter()
+        .map(|(m, pat)| {
+            let m = *m;
+            let b = n / m;
+            let binv = inv[(b as i64 % Q) as usize];
+            // zeta_b = psi^(m (2b+1)), residues r_b: half h = 2*block + (upper ? 1 : 0)
+            let zetas: Vec<i64> = (0..b).map(|i| zq::pow(psi, (m * (2 * i + 1)) as u64)).collect();
+            let res_at = |blk: usize, p: usize| -> i64 {
+                let h = 2 * blk + if p >= m / 2 { 1 } else { 0 };
+                if pat[h] { 1 + ((blk as i64 * 7919 + p as i64 * 104729 + 12345) % (Q - 1)) } else { 0 }
+            };
+            let mut a = vec![0u32; n];
+            for c in 0..b {
+                for p in 0..m {
+                    let mut acc = 0i64;
+                    for blk in 0..b {
+                        let r = res_at(blk, p);
+                        if r != 0 {
+                            acc += r * zq::pow(inv[zetas[blk] as usize], c as u64) % Q;
+                        }
+                    }
+                    a[c * m + p] = (acc % Q * binv % Q) as u32;
+                }
+            }
+            let want: Vec<i64> = (0..n).map(|k| { let mut acc = 0i64; for j in 0..n { acc += a[j] as i64 * pow[k][j] % Q; } acc % Q }).collect();
+            let describe = || format!("blocks of length {} with dense halves {:?}", m, pat.iter().enumerate().filter(|(_, x)| **x).map(|(i, _)| i).collect::<Vec<_>>());
+            let case = || json!({"kind":"sparsity","n":n,"m":m,"pattern":pat});
+            match crate::ctx::catch(|| fh::felt_fft(&a)) {
+                Ok(g) if g.iter().zip(want.iter()).all(|(x, y)| *x as i64 == *y) => {}
+                Ok(_) => return Some(found(format!("ntt:n={}:sparsity-forward", n), format!("n={}: ntt of the input whose residues modulo X^{} - zeta are [{}] differs from the defining sum", n, m, describe()), case())),
+                Err(e) => return Some(found(format!("ntt:n={}:sparsity-forward-panic", n), format!("n={}: ntt panicked on [{}]: {}", n, describe(), e), case())),
+            }
+            let spectrum: Vec<u32> = want.iter().map(|&x| x as u32).collect();
+            match crate::ctx::catch(|| fh::felt_ifft(&spectrum)) {
+                Ok(g) if g == a => None,
+                Ok(_) => Some(found(format!("ntt:n={}:sparsity-inverse", n), format!("n={}: intt of the spectrum of the polynomial whose residues modulo X^{} - zeta are [{}] does not return it", n, m, describe()), case())),
+                Err(e) => Some(found(format!("ntt:n={}:sparsity-inverse-panic", n), format!("n={}: intt panicked on the spectrum of [{}]: {}", n, describe(), e), case())),
+            }
+        })
+        .collect();
+    for f in res.into_iter().flatten() {
+        if out.len() < 4 && !out.iter().any(|x| x.key == f.key) {
+            out.push(f);
+        }
+    }
+    (cases, out)
+}
+
 pub fn run(tier: Tier) {
     let mut ctx = Ctx::new("C11", tier);
 
@@ -337,9 +445,23 @@ pub fn run(tier: Tier) {
     }
     pe.exhaustive = true;
     ctx.add_part(pe);
+    // (the jobs of one size already run in parallel)
+    let mut psp = Part::new("intermediate_sparsity", "every n >= 8: inputs built by CRT so that their residues modulo the factors X^m - zeta of X^n+1 (the states a radix-2 transform passes through) have each half-block either zero or dense, for m in {n/2, n/4, n/8, 8, 16, 32}: all zero/dense patterns when there are at most 8 halves, otherwise one or two dense halves, one or two zero halves (over a selection of blocks) and periodic patterns; ntt against the defining sums over the slot roots, intt of that spectrum back to the input");
+    for &n in &sizes {
+        let (c, f) = check_sparsity(n);
+        psp.states += c;
+        psp.transitions += 2 * c;
+        psp.validated += c;
+        psp.outcome(format!("n={} inputs={}", n, c));
+        for x in f {
+            ctx.violation(x.key, x.what, x.case);
+        }
+    }
+    psp.exhaustive = true;
+    ctx.add_part(psp);
     ctx.sample(json!({"n":8,"ntt(X)":fh::felt_fft(&unit(8,1,1)),"meaning":"the 8 roots of X^8+1 mod q in the transform's output order"}));
     ctx.sample(json!({"n":4,"i":3,"j":2,"intt(ntt(X^3).*ntt(X^2))":fh::felt_ifft(&fh::felt_hadamard_mul(&fh::felt_fft(&unit(4,3,1)), &fh::felt_fft(&unit(4,2,1)))),"expected":"-X = [0,12288,0,0]"}));
-    ctx.assume("Z_q gates are exact (decided exhaustively by C12); butterflies contain no data-dependent branch, so agreement on a basis (and on all basis pairs for the bilinear product) extends to all q^n (q^2n) inputs; the linearity premise is additionally exercised on two-term and dense vectors");
+    ctx.assume("Z_q gates are exact (decided exhaustively by C12); the basis argument presumes butterflies without data-dependent branches - the intermediate_sparsity and extreme_values families probe that premise; given it, agreement on a basis (and on all basis pairs for the bilinear product) extends to all q^n (q^2n) inputs; the linearity premise is additionally exercised on two-term and dense vectors");
     ctx.finish();
 }
 
@@ -356,6 +478,10 @@ pub fn replay(case: &Value) -> Result<Option<String>, String> {
         "extreme" => {
             let n = us("n").ok_or("n")?;
             Ok(check_extremes(n).1.into_iter().next().map(|f| f.what))
+        }
+        "sparsity" => {
+            let n = us("n").ok_or("n")?;
+            Ok(check_sparsity(n).1.into_iter().next().map(|f| f.what))
         }
         "dense" => {
             let n = us("n").ok_or("n")?;
